@@ -1,12 +1,14 @@
 (* C06/Props.v — property theorems only.  Each is closed by [exact] of a lemma from Lemmas.v and followed by
    Print Assumptions (parsed by the check: must be "Closed under the global context").
 
-   Property C06 (game lifecycle).  The model (Model.v) is the game coroutine WITH fixes/C06-late-player-add.patch
-   and fixes/C06-end-game-before-first-player.patch applied; [trace c ins] is the chronological output of a game
+   Property C06 (game lifecycle).  The model (Model.v) is the game coroutine WITH fixes/C06-late-player-add.patch,
+   fixes/C06-end-game-before-first-player.patch and fixes/C06-first-player-after-held-add.patch applied
+   (fixes/C06-ball-start-before-player-added.patch repairs a crash in mode_controller, which the model does not contain); [trace c ins] is the chronological output of a game
    with configuration c under the environment inputs ins (one input per suspension of the coroutine: operations
    issued by handlers of the lifecycle event, batches arriving while a queue handler holds a wait, or the batch
    arriving while the game idles).  All theorems quantify over every configuration and every input list.
-   The code before the fixes is refuted by [turn_structure_refuted_unfixed] and [game_hangs_refuted_unfixed]. *)
+   The code before the fixes is refuted by [turn_structure_refuted_unfixed], [game_hangs_refuted_unfixed] and
+   [first_player_refuted_unfixed]. *)
 From Common Require Import Prelude.
 From C06 Require Import Model Lemmas Turns.
 Open Scope Z_scope.
@@ -23,7 +25,7 @@ Print Assumptions lifecycle_trace_in_grammar.
 
 Example lifecycle_example :
   (* a complete 2-player 1-ball game with an extra ball for player 1: 36 lifecycle events, one Award marker, ends with Fin *)
-  let tr := trace (mkcfg 1 2 3 true)
+  let tr := trace (mkcfg 1 2 3 true false)
                   ([mkin [] [] []; mkin [] [] []; mkin [] [] []; mkin [AddPlayerReq true] [] []] ++
                    repeat (mkin [] [] [Drain 1]) 4 ++ [mkin [AwardExtra] [] [Drain 1]] ++
                    repeat (mkin [] [] [Drain 1]) 40) in
@@ -39,7 +41,7 @@ Print Assumptions bip_bounds.
 
 Example bip_bounds_example :
   (* 2 balls known; a multiball adds 5, the setter caps at 2; three drains floor at 0 and end the ball *)
-  let c := mkcfg 1 1 2 true in
+  let c := mkcfg 1 1 2 true false in
   let ins := repeat (mkin [] [] []) 9 ++ [mkin [] [] [AddBip 5]] in
   0 <= nbk c /\ bip (final c ins) = 2 /\ pc (final c (ins ++ [mkin [] [] [Drain 3]])) = AtEv BWE.
 Proof. vm_compute. repeat split; congruence. Qed.
@@ -74,8 +76,8 @@ Print Assumptions turn_structure.
 Example turn_structure_example :
   (* three players (two join during ball 1), two balls each: six turns, the last one is player 3 ball 2;
      the same monitor rejects the trace of the unfixed code on the late-add witness *)
-  mrun (tstep (mkcfg 2 4 3 true)) None
-       (trace (mkcfg 2 4 3 true)
+  mrun (tstep (mkcfg 2 4 3 true false)) None
+       (trace (mkcfg 2 4 3 true false)
               (repeat calm 6 ++ [add_in_handler; add_in_handler] ++ repeat calm 120)) = Some (Some (3, 2, 3)%nat) /\
   mrun (tstep late_add_cfg) None (trace_unfixed late_add_cfg late_add_ins) = None /\
   mrun (tstep late_add_cfg) None (trace late_add_cfg late_add_ins) = Some (Some (1, 2, 1)%nat).
@@ -97,6 +99,16 @@ Theorem game_hangs_refuted_unfixed :
     pc s = WaitPlayer /\ active s = true.
 Proof. exact game_hangs_refuted_unfixed_l. Qed.
 Print Assumptions game_hangs_refuted_unfixed.
+
+(* the code without fixes/C06-first-player-after-held-add.patch: when the player_adding queue of player 2 clears
+   before that of player 1 and there is no current player yet, the game starts with player 2 (the turn monitor rejects
+   the trace); with the fix the same inputs give a legal game (witness replayed: corpus/C06/game.4.json) *)
+Theorem first_player_refuted_unfixed :
+  exists c ins, (1 <= bpg c)%nat /\
+    mrun (tstep c) None (out0 ++ snd (steps_g no_first_fix c init ins)) = None /\
+    exists m, mrun (tstep c) None (trace c ins) = Some (Some m).
+Proof. exact first_player_refuted_unfixed_l. Qed.
+Print Assumptions first_player_refuted_unfixed.
 
 Example witnesses_fixed :
   existsb (turn_ball_exceeds late_add_cfg) (trace late_add_cfg late_add_ins) = false /\
